@@ -1,6 +1,8 @@
 mod child;
+mod ctc;
 mod geometry;
 mod raster;
+mod serialize;
 
 fn main() {
     let cmd = std::env::args().nth(1).unwrap_or_default();
@@ -8,6 +10,8 @@ fn main() {
         "raster-contours" => raster::main_contours(),
         "raster-draw" => raster::main_draw(),
         "geometry" => geometry::main_geometry(),
+        "ctc" => ctc::main_ctc(),
+        "serialize" => serialize::main_serialize(),
         _ => {
             eprintln!("usage: vh-misc <raster-contours|raster-draw|geometry|ctc|serialize> [options]");
             std::process::exit(2);
